@@ -93,7 +93,7 @@ func cliphex(b []byte, n int) string {
 }
 
 func (s *scen) desc() interface{} {
-	d := caseDesc{Family: s.op, Trigger: s.trigger, IDL: s.prog.IDL(), Parse: fmt.Sprintf("%+v", s.popts), Options: s.optName, Doc: clip(s.doc, 600), Want: cliphex(s.want, 300), Bad: s.bad, Ks: s.ks, Note: s.note}
+	d := caseDesc{Family: s.op, Trigger: s.trigger, IDL: s.prog.Source(), Parse: fmt.Sprintf("%+v", s.popts), Options: s.optName, Doc: clip(s.doc, 600), Want: cliphex(s.want, 300), Bad: s.bad, Ks: s.ks, Note: s.note}
 	if len(d.IDL) > 1500 {
 		d.IDL = d.IDL[:1500] + "..."
 	}
